@@ -206,6 +206,8 @@ SPECS = [
     {'type': 'signal', 'interface': 'a.b', 'member': 'M'},
     {'path_namespace': '/a/b'},
     {'type': 'signal', 'arg0': 'x'},
+    # no constraint at all: the match-everything rule (its text is empty)
+    {},
 ]
 ROUTE = [
     {'type': 4, 'fields': {'path': '/a/b', 'member': 'M', 'interface': 'a.b'},
@@ -372,8 +374,13 @@ class HistoryScenario(explore.Scenario):
         return viol
 
     def canon(self, w):
+        # the harness's view and what the connection itself holds (a rule
+        # the library failed to drop makes a different world)
+        c = w.cw.conn
         return (tuple(sorted((rid, si) for rid, (si, tag) in w.live.items())),
-                w.adds)
+                w.adds,
+                explore.impl_digest(getattr(c, 'router', None),
+                                    getattr(c, 'match_rules', None)))
 
     def nontrivial(self, hist):
         return any(e[0] == 'del' for e in hist)
